@@ -28,11 +28,63 @@ def pattern(rng, case, al, n):
     return case.push("concatl %d%s" % (len(parts), "".join(" %d" % p for p in parts)))
 
 
+def generalised_pair(rng, case, al):
+    """build r as a concatenation of ranges / loops and s as a GENERALISATION of it (ranges widened,
+    sub-sequences replaced by Sigma*, Sigma* inserted), so that L(r) is inside L(s) and the rigid /
+    flexible matcher has to succeed through its prefix, suffix, left-to-right and right-to-left passes"""
+    n = rng.choice([1, 2, 3, 4, 5, 6])
+    facts = []
+    for _ in range(n):
+        k = rng.random()
+        a, b = al.rand_range(rng)
+        if k < 0.7:
+            facts.append(("range", a, b))
+        elif k < 0.85:
+            facts.append(("all",))
+        else:
+            facts.append(("loop", a, b, rng.choice(["star", "plus", "opt"])))
+    def emit(fs):
+        ids = []
+        for f in fs:
+            if f[0] == "range":
+                ids.append(case.push("range %d %d" % (f[1], f[2])))
+            elif f[0] == "all":
+                ids.append(case.push("all"))
+            else:
+                x = case.push("range %d %d" % (f[1], f[2])); ids.append(case.push("%s %d" % (f[3], x)))
+        return case.push("concatl %d%s" % (len(ids), "".join(" %d" % i for i in ids)))
+    # generalise
+    g = []
+    i = 0
+    while i < len(facts):
+        f = facts[i]
+        k = rng.random()
+        if k < 0.25:                       # replace a run of 1-3 factors by Sigma*
+            g.append(("all",)); i += rng.choice([1, 1, 2, 3]); continue
+        if f[0] == "range" and k < 0.6:    # widen the range
+            a = max(0, f[1] - rng.choice([0, 1, 5])); b = min(MAXC, f[2] + rng.choice([0, 1, 5]))
+            g.append(("range", a, b))
+        elif f[0] == "loop":
+            g.append(("all",))
+        else:
+            g.append(f)
+        if rng.random() < 0.15:
+            g.append(("all",))
+        i += 1
+    if rng.random() < 0.2:
+        g.insert(0, ("all",))
+    r_id = emit(facts)
+    s_id = emit(g)
+    return r_id, s_id
+
+
 def one_case(rng, tier):
     al = Alphabet(rng)
     case = Case()
     r = rng.random()
-    if r < 0.6:
+    if r < 0.35:
+        a, b = generalised_pair(rng, case, al)
+    elif r < 0.6:
         a = pattern(rng, case, al, rng.choice([1, 2, 3, 4, 5]))
         b = pattern(rng, case, al, rng.choice([1, 2, 3, 4, 5]))
     elif r < 0.8:
